@@ -125,6 +125,15 @@ struct Stamp
     until common.Date = "2016-01-01T00:00:00Z"
 '''
 
+# four namespaces for the Python stub rows: ztop imports only zmid, whose aliases stand for lists of types of za and zb, so
+# the stub of ztop needs TWO imports of namespaces its spec does not import
+SPEC_I = [('za.stone', 'namespace za\n\nstruct A1\n    x Int32\n'),
+          ('zb.stone', 'namespace zb\n\nstruct B1\n    y Int32\n'),
+          ('zg.stone', 'namespace zg\n\nstruct G1\n    z Int32\n'),
+          ('zmid.stone', 'namespace zmid\n\nimport za\nimport zb\nimport zg\n\nalias As = List(za.A1)\nalias Bs = List(zb.B1)\n'
+                         'alias Gs = Map(String, zg.G1)\n'),
+          ('ztop.stone', 'namespace ztop\n\nimport zmid\n\nstruct Top\n    a zmid.As\n    b zmid.Bs\n    g zmid.Gs?\n')]
+
 SPEC_C = '''namespace users
 
 annotation InternalOnly = Omitted("internal")
@@ -280,6 +289,8 @@ def spec_set(k=0, backend=None):
     specs = [('stone_cfg.stone', STONE_CFG), ('files.stone', SPEC_A), ('common.stone', SPEC_B), ('users.stone', SPEC_C)]
     if backend is not None and not backend.startswith(('swift', 'obj_c')):
         specs.append(('stamps.stone', SPEC_H))
+    if backend is not None and backend.startswith('python_type'):
+        specs += SPEC_I
     if k >= 1:
         specs.append(('routes_only.stone', SPEC_D))
         # sets and dicts on the way to the output: inherited omitted callers, several custom annotations of one
